@@ -252,7 +252,7 @@ Rerun == /\ AllowRerun /\ status = "raised" /\ ~reran
          /\ data' = [k \in Outs |-> {}] /\ result' = [k \in Outs |-> {}] /\ phase' = "main" /\ writes' = {}
          /\ UNCHANGED <<fs, assign>>
 
-Init == /\ assign \in [Ins -> SUBSET Outs]
+InitRest ==
         /\ fs = [p \in AllPaths |-> IF PrevParts > 0 /\ p = DS THEN Dir
                                      ELSE IF PrevParts > 0 /\ p \in {META, CMETA} THEN File({-100})
                                      ELSE IF p \in {OUT(j) : j \in PrevOuts} THEN File({-(p.k + 1)}) ELSE Absent]
@@ -260,6 +260,7 @@ Init == /\ assign \in [Ins -> SUBSET Outs]
         /\ att = [t \in Tasks |-> 0] /\ wstart = pc
         /\ data = [k \in Outs |-> {}] /\ result = [k \in Outs |-> {}]
         /\ status = "running" /\ faults = 0 /\ gen = 0 /\ reran = FALSE /\ writes = {} /\ phase = "main"
+Init == assign \in [Ins -> SUBSET Outs] /\ InitRest
 Next == \/ /\ Running /\ \/ MainStart \/ MainOverwrite \/ MainMkdirs \/ MainBarrier1 \/ MainBarrier2 \/ MainMoves \/ MainMeta \/ MainRead
                          \/ \E i \in Ins : Proc(i)
                          \/ \E k \in Outs : Cat(k)
